@@ -2,4 +2,4 @@ package main
 
 func genBasexStream(ctx *Ctx, emit func(Case))   {}
 func genFields(ctx *Ctx, emit func(Case))        {}
-func goExecMore3(t []string) (string, bool)      { return "", false }
+func goExecMore4(t []string) (string, bool)      { return "", false }
